@@ -263,6 +263,16 @@ Theorem C05_DPR_underflow : memory_is_dpr 2146435121 2144337920 3145728 0 402653
 Proof. exact DPR_underflow_rejected. Qed.
 Print Assumptions C05_DPR_underflow.
 
+(** the sum of three 32-bit registers at 2^32 and around it (seeded change C05-m12 added them
+    in 32 bits): DPR [7B000000, 7B400000), heap E0000 at the top, SINIT base 0 *)
+Theorem C05_DPR_sum_at_4G :
+  memory_is_dpr 2066743361 2066874368 917504 0 4291952640 = fail /\
+  memory_is_dpr 2066743361 2066874368 917504 0 4291952639 = fail /\
+  memory_is_dpr 2066743361 2066874368 917504 0 4294967295 = fail /\
+  memory_is_dpr 2066743361 2066874368 917504 0 131072 = pass.
+Proof. exact DPR_sum_at_4G_rejected. Qed.
+Print Assumptions C05_DPR_sum_at_4G.
+
 (** ValidSMRR as a function of (SMRR MSRs, TSEG base, TSEG limit): exact against the interval
     reading.  PARTIAL: contiguous mask of granularity 2^k (the only masks with an interval
     reading). *)
